@@ -32,7 +32,7 @@ TEXT = {
          "member-sampling enclosure oracle in exact arithmetic + concrete floating-point evaluation under all rounding modes"),
  'C13': ("Held on every execution produced (modulo the sparse-expression aliasing finding): after every step of the histories of all engines every other pool object, const argument and snapshot keeps its value in the reference model; x.op(x) equals x.op(copy); self-assignment/self-swap harmless; ASan for use-after-free forms.",
          "sanitized histories with pooled objects + value snapshots in the reference model + alias differential"),
- 'C14': ("Held on the enumerated fault points (modulo known findings): for every scenario the k-th allocation (operator new and GMP) is made to fail, every abandonment checkpoint is fired, and every ill-formedness class is tried: documented exception type, values unchanged, OK(), reusable, destructible, no leak (in-process LeakSanitizer).",
+ 'C14': ("Held on the enumerated fault points modulo fourteen FAMILY findings (DESIGN.md 7.8): exception safety is largely unimplemented in the library, so for the listed domains any not-OK state in a listed triage class, crash or unusable object after an injected fault is attributed to the family. Decided on every run: leaks at PPL allocation sites, exception type and value preservation of about 620 rejected-call entries, not-OK states in unlisted triage classes (clause-by-clause re-evaluation of Polyhedron::OK on the dump), hangs. For every scenario the k-th allocation (operator new and GMP) is made to fail at a stride of points (200 per scenario in thorough), every abandonment checkpoint is fired and weight thresholds are spread over the measured weight.",
          "fault enumeration (allocation countdown, abandonment checkpoints, ill-formed argument classes) under ASan/LSan"),
  'C15': ("Held on every execution produced: at random points of the histories of all engines the object is dumped, loaded into a fresh object, checked for OK(), identical re-dump and equal value, and the loaded twin is then driven in lock-step and must keep answering like the original.",
          "sanitized histories + dump/load/re-dump fixpoint + lock-step twin differential"),
